@@ -104,6 +104,14 @@ def prescribedA (k : MConsts α) (polar : Bool) (lp : MBdryProp α) (x y : α) :
     let a := lp.A0 + rs * lp.A1 + t * lp.A2
     a * k.cos (lp.phi * k.deg) / k.c
 
+/-- what the combination loop of `Static2D` adds to `Me[j][k]` in the first pass: `Mx/mu2 + My/mu1 + Mxy*v12 + Mn` with `v12 = 0`, `Mn = 0`;
+    `Mx[j][k] = K p_j p_k`, `My[j][k] = K q_j q_k`, `Mxy[j][k] = K (p_j q_k + p_k q_j)`, each accumulated from zero over the upper triangle
+    and mirrored -/
+def magStiff (K mu1 mu2 : α) (p q : V3 α) (j kk : Fin 3) : α :=
+  let lo : Fin 3 := if j.val ≤ kk.val then j else kk
+  let hi : Fin 3 := if j.val ≤ kk.val then kk else j
+  (0 + K * p lo * p hi) / mu2 + (0 + K * q lo * q hi) / mu1 + (0 + K * (p lo * q hi + p hi * q lo)) * 0 + 0
+
 def assembleM (k : MConsts α) (c001 c0001 : α) (P : MProblem α) : LinProb α := Id.run do
   let nn := P.nodes.size
   let zero : α := 0
@@ -145,12 +153,6 @@ def assembleM (k : MConsts α) (c001 c0001 : α) (P : MProblem α) : LinProb α 
       k.sqrt (k.sq (xs kk - xs j) + k.sq (ys kk - ys j))
     let a := area p q
     let K : α := -1 / (4 * a)
-    let lo (j kk : Fin 3) : Fin 3 := if j.val ≤ kk.val then j else kk
-    let hi (j kk : Fin 3) : Fin 3 := if j.val ≤ kk.val then kk else j
-    let mx : M3 α := fun j kk => 0 + K * p (lo j kk) * p (hi j kk)
-    let my : M3 α := fun j kk => 0 + K * q (lo j kk) * q (hi j kk)
-    -- (Mxy is multiplied by v12 = 0 in the first pass; it contributes `Mxy*0`)
-    let mxy : M3 α := fun j kk => 0 + K * (p (lo j kk) * q (hi j kk) + p (hi j kk) * q (lo j kk))
     let mut me : Array α := Array.replicate 9 zero
     let mut be : Array α := Array.replicate 3 zero
     let mg (m : Array α) (a b : Nat) : α := m.getD (a * 3 + b) zero
@@ -190,7 +192,7 @@ def assembleM (k : MConsts α) (c001 c0001 : α) (P : MProblem α) : LinProb α 
     -- combine
     for j in [(0 : Fin 3), 1, 2] do
       for kk in [(0 : Fin 3), 1, 2] do
-        me := me.setIfInBounds (j.val * 3 + kk.val) (mg me j.val kk.val + (mx j kk / mu2 + my j kk / mu1 + mxy j kk * 0 + 0))
+        me := me.setIfInBounds (j.val * 3 + kk.val) (mg me j.val kk.val + magStiff K mu1 mu2 p q j kk)
         be := be.setIfInBounds j.val (be.getD j.val zero + 0 * 0)
     for j in [(0 : Fin 3), 1, 2] do
       for kk in [(0 : Fin 3), 1, 2] do
